@@ -57,6 +57,11 @@ func gen(t *rapid.T) Scenario {
 	if rapid.IntRange(0, 9).Draw(t, "long") == 0 {
 		maxOps = 200
 	}
+	if rapid.IntRange(0, 39).Draw(t, "manyKeys") == 0 && sc.Order != "str" {
+		// hundreds of live keys: the upper levels of the list come into play
+		sc.U = rapid.IntRange(50, 300).Draw(t, "uBig")
+		maxOps = 600
+	}
 	sc.Ops = rapid.SliceOfN(rapid.Custom(genOp), 1, maxOps).Draw(t, "ops")
 	sc.H = rapid.SliceOfNDistinct(rapid.IntRange(0, 1<<30), 3, 3, rapid.ID[int]).Draw(t, "h")
 	if rapid.IntRange(0, 3).Draw(t, "second") == 0 {
